@@ -159,4 +159,31 @@ theorem step_keeps_call {s s' : State} {l : Label} {c j : Nat} {cn : Conn} {k : 
   case deliver c' j' =>
     exact viaCall h (fun x _ hx => ⟨hx, id, rfl, ⟨[], by simp⟩, Nat.le_succ _⟩)
 
+theorem KeptIn.self {s : State} {c j : Nat} {cn : Conn} {k : Call}
+    (hc : s.conns[c]? = some cn) (hk : cn.calls[j]? = some k)
+    (hcan : k.cancelled = false) (hpg : cn.peerGone = false) : KeptIn s c j k :=
+  ⟨cn, k, hc, hk, hcan, hpg, id, rfl, ⟨[], by simp⟩, Nat.le_refl _⟩
+
+/-- the server's own steps never cancel a call or make a peer leave, so a tracked call is kept
+along any run of internal steps -/
+theorem run_keeps_call {ls : List Label} : ∀ {s s' : State} {c j : Nat} {k : Call},
+    (∀ l ∈ ls, l.internal = true) → run s ls = some s' → KeptIn s c j k → KeptIn s' c j k := by
+  induction ls with
+  | nil => intro s s' c j k _ h hk; simp only [run, Option.some.injEq] at h; subst h; exact hk
+  | cons l ls ih =>
+    intro s s' c j k hall h hkept
+    simp only [run] at h
+    split at h
+    · rename_i s1 hs1
+      obtain ⟨cn1, k1, a1, a2, a3, a4, a5, a6, ⟨m1, a7⟩, a8⟩ := hkept
+      have hi := hall l List.mem_cons_self
+      have hl1 : l ≠ .cancel c j := by intro e; subst e; simp [Label.internal] at hi
+      have hl2 : l ≠ .peerDrop c := by intro e; subst e; simp [Label.internal] at hi
+      obtain ⟨cn2, k2, b1, b2, b3, b4, b5, b6, ⟨m2, b7⟩, b8⟩ :=
+        step_keeps_call hs1 a1 a2 a3 a4 hl1 hl2
+      refine ih (fun x hx => hall x (List.mem_cons_of_mem _ hx)) h
+        ⟨cn2, k2, b1, b2, b3, b4, fun h0 => b5 (a5 h0), b6.trans a6,
+          ⟨m1 ++ m2, by rw [b7, a7, List.append_assoc]⟩, Nat.le_trans a8 b8⟩
+    · cases h
+
 end Shutdown
